@@ -107,6 +107,7 @@ func init() {
 	})
 	grid := modelSub(p, "grid", compareOpts{}, func(cs *progCase, res *m.Result) bool { return true })
 	p.Run = func(c *Ctx) {
+		runScale(c, grid, "C05")
 		// complete grid: every binary operator x every ordered pair of a value
 		// pool, every unary operator x the pool, and the conditional; values
 		// are observed through cat() so arrays and hashes are visible too.
